@@ -287,7 +287,7 @@ P = {
     "dir": "duke",
     "mc": [{"module": "MC_ClassRead", "cfg": "MC_ClassRead.cfg", "timeout": {"quick": 600, "thorough": 3000}}],
     "trace": {"module": "Trace_ClassRead", "cfg": "Trace_ClassRead.cfg", "timeout": 3000},
-    "i2s_n": {"quick": 700, "thorough": 8000},
+    "i2s_n": {"quick": 700, "thorough": 12000},
     "classify_vec": c01_class,
     "classify_i2s": c01_class_i2s,
     "required_classes": ["fam/" + f for f in ("shape", "branch", "pair", "exc", "dbg", "frm", "all", "ver", "members")]
